@@ -5,7 +5,15 @@ sys.path.insert(0, os.path.dirname(os.path.dirname(os.path.abspath(__file__))))
 from sa import build, selfval
 from sa.mutants import MUTANTS
 
-only = set(sys.argv[1:])
+args = sys.argv[1:]
+shard = None
+if args and args[0].startswith("--shard="):
+    i, n = args[0][len("--shard="):].split("/")
+    shard = (int(i), int(n))
+    args = args[1:]
+only = set(args)
+if shard:
+    MUTANTS = [m for k, m in enumerate(MUTANTS) if k % shard[1] == shard[0]]
 base = tempfile.mkdtemp(prefix="bl-mutall-", dir="/tmp")
 scratch = os.path.join(base, "repo")
 try:
